@@ -171,12 +171,16 @@ impl<Db: Database> Storage<Db> {
                 .zalsa_impl
                 .event(&|| Event::new(EventKind::DidSetCancellationFlag));
 
+            #[cfg(feature = "verif")]
+            crate::verif::failpoint(crate::verif::Site::CancelAfterFlag);
             let mut clones = self.handle.coordinate.clones.lock();
             while *clones != 1 {
                 clones = self.handle.coordinate.cvar.wait(clones);
             }
         }
 
+        #[cfg(feature = "verif")]
+        crate::verif::failpoint(crate::verif::Site::CancelAfterWait);
         // The ref count on the `Arc` should now be 1
         let zalsa = Arc::get_mut(&mut self.handle.zalsa_impl).unwrap();
         // Increment the cancellation count only after cancelled workers have dropped their
